@@ -79,6 +79,8 @@ class Schema:
         toks += ["R", str(len(named))]
         for i in named:
             toks += [str(i["idx"]), i["tlname"], "1" if i["topLevel"] else "0"]
+        # optional trailing section: TL name of every instance (JSON model: union variant names)
+        toks += ["N", str(len(self.desc["instances"]))] + [(i.get("tlname") or "-").replace(" ", "") or "-" for i in self.desc["instances"]]
         return "codec.desc %s %s %s" % (self.sid, "1" if self.sanity else "0", " ".join(toks))
 
     def top_items(self):
